@@ -40,7 +40,7 @@ where
   pub(crate) iss: Cow<'presentation, Url>,
 
   /// Represents the issuanceDate encoded as a UNIX timestamp.
-  #[serde(flatten)]
+  #[serde(flatten, deserialize_with = "deserialize_issuance_date")]
   pub(crate) issuance_date: Option<IssuanceDateClaims>,
 
   /// Represents the id property of the credential.
@@ -54,6 +54,19 @@ where
 
   #[serde(flatten, skip_serializing_if = "Option::is_none")]
   pub(crate) custom: Option<Object>,
+}
+
+/// Deserializes the flattened `nbf`/`iat` claims.
+///
+/// A flattened `Option` turns every error of its content into `None`, which would let a claims set with a malformed
+/// `nbf` or `iat` pass as one that carries no issuance date at all. The claims are therefore deserialized as such and
+/// only their absence yields `None`.
+fn deserialize_issuance_date<'de, D>(deserializer: D) -> std::result::Result<Option<IssuanceDateClaims>, D::Error>
+where
+  D: serde::Deserializer<'de>,
+{
+  let claims: IssuanceDateClaims = IssuanceDateClaims::deserialize(deserializer)?;
+  Ok(Some(claims).filter(|claims| claims.iat.is_some() || claims.nbf.is_some()))
 }
 
 impl<'presentation, CRED, T> PresentationJwtClaims<'presentation, CRED, T>
